@@ -90,6 +90,9 @@ def configs(tier):
             cfgs.append({"kind": "buffer", "n": n, "cons": [cons], "max_elems": 4 if tier == "quick" else 5})
         # the consumer's awaitable may raise (once per run)
         cfgs.append({"kind": "buffer", "n": n, "cons": ["future"], "max_elems": 4 if tier == "quick" else 5, "faults": True})
+    # delay(interval): the same forwarding coroutine over an unbounded queue, pacing its emissions
+    for cons in ("future", "sync"):
+        cfgs.append({"kind": "delay", "interval": 2, "cons": [cons], "max_elems": 4 if tier == "quick" else 5, "idle_wait": True})
     # falsy payloads (None, 0) are elements like any other
     cfgs.append({"kind": "buffer", "n": 1, "cons": ["future"], "max_elems": 4 if tier == "quick" else 5, "falsy": {"none": 2, "zero": 3}})
     return cfgs
@@ -97,7 +100,7 @@ def configs(tier):
 
 def consts_of(cfg):
     return dict(NE=cfg["max_elems"], N=cfg.get("n", 0), SyncCons=cfg["cons"][0] == "sync",
-                Interval=int(cfg.get("interval", 0)), MaxOut=cfg["max_elems"], MaxTime=0, Faults=bool(cfg.get("faults")))
+                Interval=int(cfg.get("interval", 0)), MaxOut=cfg["max_elems"], MaxTime=100000 if cfg.get("interval") else 0, Faults=bool(cfg.get("faults")))
 
 
 def run(tier, seed, mutant=None, only_validate=False):
